@@ -48,7 +48,8 @@ ASSUMPTIONS = [
     'project < global < c_args option < target from the comments in backends.py:1056-1067 and ninjabackend.py:3184-3186',
 ]
 
-PROBE_NOCOPY_READ = True   # deterministic probe for the confirmed finding native/nocopy-read-then-read
+# The confirmed finding native/nocopy-read-then-read:group-flags-doubled is re-checked by replays/regress/C13-nocopy-read-then-read.json
+# (probe_nocopy_read below); in the generated campaigns that class is excluded by normalise().
 
 # ---------------------------------------------------------------------------
 # alphabets
@@ -223,7 +224,7 @@ def normalise(case: dict) -> T.Tuple[dict, T.List[str]]:
 # running one case
 
 class _Slot:
-    __slots__ = ('real', 'ref', 'pending', 'dup', 'dead')
+    __slots__ = ('real', 'ref', 'pending', 'dup', 'dead', 'unread')
 
     def __init__(self, real: T.Any, ref: R.RefArgs, pending: int = 0, dup: bool = False):
         self.real = real
@@ -231,6 +232,7 @@ class _Slot:
         self.pending = pending     # contract writes since the last flush-forcing operation
         self.dup = dup             # one of them re-added an override-type argument
         self.dead = False
+        self.unread = False        # written to since the last read of the whole list
 
 
 def _diff_sig(real: T.List[str], ref: T.List[str], kind: T.Callable[[str], str]) -> str:
@@ -271,7 +273,7 @@ def _execute(case: dict, eager: bool = False, info: T.Optional[dict] = None) -> 
             lazy_reads += 1
             if s.dup:
                 nontrivial = True
-        s.pending, s.dup = 0, False
+        s.pending, s.dup, s.unread = 0, False, False
         if got != s.ref.l:
             raise _Mismatch('list/' + _diff_sig(got, s.ref.l, kind),
                             f'{where}: list(args) = {got}\n expected (eager meaning) {s.ref.l}')
@@ -445,9 +447,10 @@ def _execute(case: dict, eager: bool = False, info: T.Optional[dict] = None) -> 
                     raise _Mismatch('read/eq', f'{where}: args == {s.ref.l} gave {same}; args == that + [-DIFFERENT] gave {other}')
             elif name == 'eq_ca':
                 o = slots[op[2] % len(slots)]
-                if o is not s and o.pending:
+                if o is not s and o.unread:
                     if info is not None:
                         info.setdefault('excluded', []).append('== against another CompilerArgs that has unread additions (no caller; see report, observation O2)')
+                    continue
                 else:
                     flushed(s)
                     got_eq = s.real == o.real
@@ -480,6 +483,12 @@ def _execute(case: dict, eager: bool = False, info: T.Optional[dict] = None) -> 
             raise
         except Exception as e:   # the list class itself must not raise on these operations
             raise _Mismatch(f'raises/{type(e).__name__}:{name}', f'{where}: raised {e!r}')
+        if name in CONTRACT_W or name in DIRECT_W or name in RAW_W:
+            s.unread = True
+        elif name in READS:
+            s.unread = False
+        elif name in ('add', 'radd', 'add_ca'):
+            slots[-1].unread = True
         if eager and not s.dead:
             for x in slots:
                 if not x.dead:
@@ -526,7 +535,21 @@ def case_class(case: dict) -> str:
 
 
 # ---------------------------------------------------------------------------
-# (2) Hypothesis campaign
+# (2) generated op lists: Hypothesis strategy and a cheap seeded generator producing the same JSON cases
+
+OP_SHAPE = {
+    'iadd': 'sb', 'append': 'sa', 'extend': 'sb', 'extend_iter': 'sb', 'iadd_ca': 'ss', 'add': 'sb', 'radd': 'sb', 'add_ca': 'ss',
+    'ctor': 's', 'copy': 's', 'append_direct': 'sa', 'extend_direct': 'sb', 'preserving': 'sb',
+    'insert': 'sia', 'setitem': 'sia', 'delitem': 'si', 'remove': 'sa', 'pop': 'si',
+    'list': 's', 'iter': 's', 'getitem': 'si', 'slice': 'sii', 'eq': 's', 'eq_ca': 'ss', 'contains': 'sa', 'count': 'sa',
+    'index': 'sa', 'native': 's', 'native_final': 's', 'len': 's', 'reversed': 's', 'reverse': 's',
+}
+OP_WEIGHT = {'iadd': 14, 'append': 5, 'extend': 4, 'extend_iter': 1, 'iadd_ca': 2, 'add': 2, 'radd': 2, 'add_ca': 1,
+             'ctor': 1, 'copy': 3, 'append_direct': 2, 'extend_direct': 3, 'preserving': 2, 'insert': 2, 'setitem': 1,
+             'delitem': 1, 'remove': 2, 'pop': 1, 'list': 4, 'iter': 1, 'getitem': 1, 'slice': 1, 'eq': 1, 'eq_ca': 1,
+             'contains': 2, 'count': 1, 'index': 1, 'native': 3, 'native_final': 1, 'len': 1, 'reversed': 1, 'reverse': 1}
+OP_NAMES_WEIGHTED = [n for n, w in OP_WEIGHT.items() for _ in range(w)]
+
 
 def case_strategy() -> T.Any:
     from hypothesis import strategies as st
@@ -536,52 +559,122 @@ def case_strategy() -> T.Any:
         cls = draw(st.sampled_from(['clike'] * 7 + ['base']))
         pool = ALPHA_CLIKE if cls == 'clike' else ALPHA_BASE
         alpha = draw(st.lists(st.sampled_from(pool), min_size=2, max_size=8, unique=True))
-        arg = st.sampled_from(alpha)
-        batch = st.lists(arg, max_size=4)
-        slot = st.integers(0, 3)
-        idx = st.integers(-6, 6)
-        payload = {
-            'iadd': (slot, batch), 'append': (slot, arg), 'extend': (slot, batch), 'extend_iter': (slot, batch),
-            'iadd_ca': (slot, slot), 'add': (slot, batch), 'radd': (slot, batch), 'add_ca': (slot, slot),
-            'ctor': (slot,), 'copy': (slot,),
-            'append_direct': (slot, arg), 'extend_direct': (slot, batch), 'preserving': (slot, batch),
-            'insert': (slot, idx, arg), 'setitem': (slot, idx, arg), 'delitem': (slot, idx), 'remove': (slot, arg),
-            'pop': (slot, idx),
-            'list': (slot,), 'iter': (slot,), 'getitem': (slot, idx), 'slice': (slot, idx, idx), 'eq': (slot,),
-            'eq_ca': (slot, slot), 'contains': (slot, arg), 'count': (slot, arg), 'index': (slot, arg), 'native': (slot,),
-            'native_final': (slot,), 'len': (slot,), 'reversed': (slot,), 'reverse': (slot,),
-        }
-        weights = {'iadd': 14, 'append': 5, 'extend': 4, 'extend_iter': 1, 'iadd_ca': 2, 'add': 2, 'radd': 2, 'add_ca': 1,
-                   'ctor': 1, 'copy': 3, 'append_direct': 2, 'extend_direct': 3, 'preserving': 2, 'insert': 2, 'setitem': 1,
-                   'delitem': 1, 'remove': 2, 'pop': 1, 'list': 4, 'iter': 1, 'getitem': 1, 'slice': 1, 'eq': 1, 'eq_ca': 1,
-                   'contains': 2, 'count': 1, 'index': 1, 'native': 3, 'native_final': 1, 'len': 1, 'reversed': 1, 'reverse': 1}
-        names = [n for n, w in weights.items() for _ in range(w)]
+        part = {'s': st.integers(0, 3), 'i': st.integers(-6, 6), 'a': st.sampled_from(alpha),
+                'b': st.lists(st.sampled_from(alpha), max_size=4)}
 
         def mk(name: str) -> T.Any:
-            return st.tuples(st.just(name), *payload[name]).map(list)
-        op = st.sampled_from(names).flatmap(mk)
-        init = draw(st.one_of(st.just([]), batch))
+            return st.tuples(st.just(name), *[part[c] for c in OP_SHAPE[name]]).map(list)
+        op = st.sampled_from(OP_NAMES_WEIGHTED).flatmap(mk)
+        init = draw(st.one_of(st.just([]), part['b']))
         ops = draw(st.lists(op, min_size=1, max_size=30))
         return {'cls': cls, 'init': init, 'ops': ops}
     return cases()
 
 
+def random_case(rnd: random.Random) -> dict:
+    cls = 'base' if rnd.random() < 0.1 else 'clike'
+    pool = ALPHA_CLIKE if cls == 'clike' else ALPHA_BASE
+    alpha = rnd.sample(pool, rnd.randint(2, 8))
+
+    def part(c: str) -> T.Any:
+        if c == 's':
+            return rnd.randint(0, 3)
+        if c == 'i':
+            return rnd.randint(-6, 6)
+        if c == 'a':
+            return rnd.choice(alpha)
+        return [rnd.choice(alpha) for _ in range(rnd.choice((0, 1, 1, 1, 2, 2, 2, 3, 4)))]
+    ops = []
+    for _ in range(rnd.randint(1, 30)):
+        name = rnd.choice(OP_NAMES_WEIGHTED)
+        ops.append([name] + [part(c) for c in OP_SHAPE[name]])
+    init = part('b') if rnd.random() < 0.5 else []
+    return {'cls': cls, 'init': init, 'ops': ops}
+
+
+def _judge(raw: dict, ev: Evidence) -> T.Optional[Failure]:
+    case, excl = normalise(raw)
+    info: dict = {}
+    f = run_case(case, info)
+    for x in excl + info.get('excluded', []):
+        ev.exclude(x)
+    if info.get('nontrivial'):
+        ev.case(case, nontrivial=True, cls=case_class(case))      # samples are taken from non-trivial cases only
+    else:
+        ev.evaluations += 1
+        ev.event(case_class(case))
+    if info.get('lazy_reads'):
+        ev.event('cases_with_read_after_>=2_unflushed_writes')
+    return f
+
+
 def _campaign_shard(shard: T.Tuple[int, int], ev: Evidence, fails: T.List[Failure]) -> None:
     seed, n = shard
     get_env()
+    campaign(case_strategy(), lambda raw: _judge(raw, ev), n, seed, fails)
 
-    def check(raw: dict) -> T.Optional[Failure]:
-        case, excl = normalise(raw)
-        info: dict = {}
-        f = run_case(case, info)
-        for x in excl + info.get('excluded', []):
-            ev.exclude(x)
-        ev.case(case, nontrivial=bool(info.get('nontrivial')), cls=case_class(case))
-        if info.get('lazy_reads'):
-            ev.event('cases_with_read_after_>=2_unflushed_writes')
-        return f
 
-    campaign(case_strategy(), check, n, seed, fails)
+def shrink_case(case: dict, sig: str) -> Failure:
+    """ddmin over the op list, then single arguments out of batches and the initial list."""
+    from harness.core import minimize_list
+
+    def fails_with(c: dict) -> T.Optional[Failure]:
+        norm, _ = normalise(c)
+        if not norm['ops']:
+            return None
+        f = run_case(norm)
+        return f if f is not None and f.sig == sig else None
+
+    best = fails_with(case)
+    if best is None:
+        raise HarnessError(f'failure does not reproduce while shrinking: {sig} {case}')
+    cur = {'cls': case['cls'], 'init': list(case['init']), 'ops': [list(o) for o in case['ops']]}
+    ops = minimize_list(cur['ops'], lambda cand: fails_with({'cls': cur['cls'], 'init': cur['init'], 'ops': cand}) is not None, max_tests=600)
+    cur['ops'] = ops
+    changed = True
+    rounds = 0
+    while changed and rounds < 6:
+        changed = False
+        rounds += 1
+        for i in range(len(cur['init']) - 1, -1, -1):
+            cand = dict(cur, init=cur['init'][:i] + cur['init'][i + 1:])
+            if fails_with(cand) is not None:
+                cur, changed = cand, True
+        for oi, op in enumerate(cur['ops']):
+            for pi, part in enumerate(op):
+                if isinstance(part, list):
+                    for i in range(len(part) - 1, -1, -1):
+                        nop = list(op)
+                        nop[pi] = nop[pi][:i] + nop[pi][i + 1:]
+                        cand = dict(cur, ops=cur['ops'][:oi] + [nop] + cur['ops'][oi + 1:])
+                        if fails_with(cand) is not None:
+                            cur, changed, op = cand, True, nop
+                elif isinstance(part, int) and pi >= 1 and part != 0:
+                    nop = list(op)
+                    nop[pi] = 0
+                    cand = dict(cur, ops=cur['ops'][:oi] + [nop] + cur['ops'][oi + 1:])
+                    if fails_with(cand) is not None:
+                        cur, changed, op = cand, True, nop
+        ops = minimize_list(cur['ops'], lambda cand: fails_with(dict(cur, ops=cand)) is not None, max_tests=200)
+        if len(ops) < len(cur['ops']):
+            cur, changed = dict(cur, ops=ops), True
+    f = fails_with(cur)
+    assert f is not None
+    return f
+
+
+def _random_shard(shard: T.Tuple[int, int], ev: Evidence, fails: T.List[Failure]) -> None:
+    seed, n = shard
+    get_env()
+    rnd = random.Random(seed)
+    buckets: T.Dict[str, dict] = {}
+    for _ in range(n):
+        raw = random_case(rnd)
+        f = _judge(raw, ev)
+        if f is not None and f.sig not in buckets and len(buckets) < 8:
+            buckets[f.sig] = raw
+    for sig, raw in buckets.items():
+        fails.append(shrink_case(raw, sig))
 
 
 # ---------------------------------------------------------------------------
@@ -589,6 +682,7 @@ def _campaign_shard(shard: T.Tuple[int, int], ev: Evidence, fails: T.List[Failur
 
 ENUM_ALPHA7 = ['-Ia', '-Ib', '-DA', '-isystemS', '-lx', '-O2', '-D']
 ENUM_ALPHA4 = ['-Ia', '-DA', '-lx', '-O2']
+ENUM_ALPHA5 = ['-Ia', '-Ib', '-DA', '-lx', '-O2']
 ENUM_ALPHA11 = ['-Ia', '-Ib', '-La', '-DA', '-UA', '-isystemS', '-lx', '/abs/liby.a', '-pthread', '-O2', '-D']
 ENUM_INITS = [[], ['-Ia', '-DA', '-lx', '-O2'], ['-DA', '-Ia', '-DA', '-Ia', '-lx', '-lx']]
 
@@ -729,11 +823,10 @@ def enum_shards(ctx: Ctx) -> T.List[tuple]:
     plan: T.List[T.Tuple[str, int, T.List[str], T.List[T.List[str]]]] = []
     if ctx.quick:
         plan += [('a7', d, ENUM_ALPHA7, ENUM_INITS) for d in (1, 2, 3)]
-        plan += [('a7', 4, ENUM_ALPHA7, ENUM_INITS[:1])]
-        plan += [('a4', 5, ENUM_ALPHA4, ENUM_INITS[:1])]
+        plan += [('a5', 4, ENUM_ALPHA5, ENUM_INITS[:1])]
     else:
         plan += [('a7', d, ENUM_ALPHA7, ENUM_INITS) for d in (1, 2, 3, 4)]
-        plan += [('a4', 5, ENUM_ALPHA4, ENUM_INITS)]
+        plan += [('a4', 5, ENUM_ALPHA4, ENUM_INITS[:1])]
         plan += [('a11', d, ENUM_ALPHA11, ENUM_INITS) for d in (1, 2, 3)]
     shards = []
     for tag, depth, alpha, inits in plan:
@@ -810,7 +903,7 @@ def e2e_files(case: dict, unique: bool) -> T.Tuple[T.Dict[str, str], T.List[str]
     files = {'meson.build': '\n'.join(lines) + '\n', 'e.c': 'int main(void) { return 0; }\n'}
     setup_args = []
     if lv['option']:
-        setup_args.append('-Dc_args=' + ','.join(lv['option']))
+        setup_args.append('-Dc_args=' + ' '.join(lv['option']))
     return files, setup_args, back, owner
 
 
@@ -969,12 +1062,12 @@ def selftest(ctx: Ctx) -> None:
 
 def run(ctx: Ctx) -> None:
     get_env()          # before forking: every worker inherits the one detected compiler object
-    if PROBE_NOCOPY_READ:
-        probe_nocopy_read(ctx)
     pmap(ctx, _enum_shard, enum_shards(ctx))
-    nper = ctx.n(1500, 25000)
+    nper = ctx.n(400, 5000)
     pmap(ctx, _campaign_shard, [(s, nper) for s in shard_seeds(ctx, 16)])
-    ne2e = ctx.n(3, 24)
+    nrand = ctx.n(12000, 150000)
+    pmap(ctx, _random_shard, [(s + 104729, nrand) for s in shard_seeds(ctx, 16)])
+    ne2e = ctx.n(2, 16)
     pmap(ctx, _e2e_shard, [(s + 7919, ne2e) for s in shard_seeds(ctx, 16)])
     ctx.exhaustive = True
     ctx.ev.extra['exhaustive_scope'] = ('op sequences of the enumeration shards (see class_histogram enum/*) are enumerated completely; '
